@@ -125,10 +125,15 @@ func (e *Explorer) RunOnce(prefix []int, labels bool) *Result {
 // Check evaluates the oracle of one result.
 func (e *Explorer) Check(r *Result) []string {
 	var msgs []string
-	msgs = append(msgs, r.Failures...)
 	if e.Sc.Classify != nil {
-		msgs = append(msgs, e.Sc.Classify(r)...)
-	} else if r.Status != StatusOK {
+		// Classify may rewrite r.Failures (e.g. to name the state in which they happened)
+		cm := e.Sc.Classify(r)
+		msgs = append(msgs, r.Failures...)
+		msgs = append(msgs, cm...)
+		return msgs
+	}
+	msgs = append(msgs, r.Failures...)
+	if r.Status != StatusOK {
 		// a scenario that does not expect it treats process death, hang and livelock as violations
 		m := "execution ended with status " + r.Status.String()
 		if r.Crash != nil {
